@@ -880,7 +880,12 @@ func c18MonRoundBinding(s c18Scn, rec *c18RoundRec) []Mon {
 			uids[p.UID] = true
 		}
 		if w.PrevBinding != nil && w.PrevBinding.Ctrl != "" && !uids[w.PrevBinding.Ctrl] {
-			mons = append(mons, Mon{Sig: "C18:foreign-binding-touched", Why: "binding controlled by " + w.PrevBinding.Ctrl + " at the moment of the write was overwritten"})
+			mons = append(mons, Mon{Sig: "C18:foreign-binding-touched", Why: "binding controlled by " + w.PrevBinding.Ctrl + " at the moment of the write was overwritten or deleted (" + w.Verb + ")"})
+		}
+		// a binding that exists and is NOT controlled by the revision may only be taken over by the
+		// guarded apply path (Get, MustBeControllableBy, Update); it is never deleted
+		if w.Binding == nil && w.PrevBinding != nil && !uids[w.PrevBinding.Ctrl] && w.PrevBinding.Ctrl == "" {
+			mons = append(mons, Mon{Sig: "C18:foreign-binding-touched", Why: "binding " + w.Name + " controlled by nobody was deleted (" + w.Verb + ") by its derived name, without being read"})
 		}
 		b := w.Binding
 		if b == nil {
